@@ -238,9 +238,11 @@ inline void account(const PropDef &p, const Case &c, const Ctx &ctx)
     for (auto *n : ctx.classes) {
         uint64_t &k = S.classes[n];
         k++;
-        if (k <= 2) {
+        // samples: the 1st hit of a class is usually the smallest (least telling) case, so it is replaced by the 7th; the 61st is kept too
+        if (k == 1 || k == 7 || k == 61) {
             auto &v = S.samples[n];
-            v.push_back(p.describe ? p.describe(c) : c.str());
+            std::string d = p.describe ? p.describe(c) : c.str();
+            if (k == 7 && !v.empty()) v[0] = d; else v.push_back(d);
         }
     }
     if (ctx.nontrivial) {
